@@ -37,24 +37,30 @@ Definition key_eqb (a b : Z * Z) : bool := Z.eqb (fst a) (fst b) && Z.eqb (snd a
 Inductive event :=
 | EPlugin (ts : Z) (x : session)
 | EUnplug (ts : Z) (x : session)
-| ERecompute (ts : Z).
+| ERecompute (ts : Z)
+(* any other queue entry: a bare acnsim.Event or a user-defined Event subclass, with its own precedence
+   and an event_type the simulator does not dispatch on (`code` = its number under the enumeration of
+   tools/anchors.d/sim.py, i.e. not 0/1/2; float('inf') precedence is encoded as a large integer) *)
+| EOther (ts : Z) (prec : Z) (code : Z).
 
 Definition ev_ts (e : event) : Z :=
-  match e with EPlugin t _ => t | EUnplug t _ => t | ERecompute t => t end.
+  match e with EPlugin t _ => t | EUnplug t _ => t | ERecompute t => t | EOther t _ _ => t end.
 Definition ev_prec (e : event) : Z :=
   match e with
   | EPlugin _ _ => PluginEvent_precedence
   | EUnplug _ _ => UnplugEvent_precedence
   | ERecompute _ => RecomputeEvent_precedence
+  | EOther _ p _ => p
   end.
 Definition ev_code (e : event) : Z :=
   match e with
   | EPlugin _ _ => PluginEvent_event_type_code
   | EUnplug _ _ => UnplugEvent_event_type_code
   | ERecompute _ => RecomputeEvent_event_type_code
+  | EOther _ _ c => c
   end.
 Definition ev_session (e : event) : option session :=
-  match e with EPlugin _ x => Some x | EUnplug _ x => Some x | ERecompute _ => None end.
+  match e with EPlugin _ x => Some x | EUnplug _ x => Some x | ERecompute _ => None | EOther _ _ _ => None end.
 
 (* Heap entries are tuples (event.timestamp, event).  Python compares tuples lexicographically:
    first the timestamps; for equal timestamps the events (distinct objects, so never `==`) with
@@ -356,7 +362,12 @@ Definition ev_horizon (e : event) : Z :=
   | EPlugin t x => Z.max t (s_departure x)
   | EUnplug t x => Z.max t (s_departure x)
   | ERecompute t => t
+  | EOther t _ _ => t
   end.
+(* an event on which _process_event dispatches (sets _resolve) *)
+Definition resolving (e : event) : bool :=
+  Z.eqb (ev_code e) 0 || Z.eqb (ev_code e) 1 || Z.eqb (ev_code e) 2.
+
 Definition max_ts (evs : list event) : Z := fold_right (fun e m => Z.max (ev_horizon e) m) 0 evs.
 Definition fuel_of (evs : list event) : nat := Z.to_nat (max_ts evs + 2).
 
